@@ -120,6 +120,11 @@ def snapshot(root):
             if os.path.islink(p):
                 snap[os.path.normpath(os.path.join(rel, fn))] = ("link", 0, os.readlink(p))
                 continue
+            import stat as _stat
+            mode = os.lstat(p).st_mode
+            if not _stat.S_ISREG(mode):
+                snap[os.path.normpath(os.path.join(rel, fn))] = ("special", 0, oct(_stat.S_IFMT(mode)))
+                continue
             with open(p, "rb") as f:
                 b = f.read()
             snap[os.path.normpath(os.path.join(rel, fn))] = ("file", len(b), hashlib.sha1(b).hexdigest())
